@@ -4,7 +4,7 @@ import collections
 
 from .. import isagen as G
 from .. import llvmref as L
-from ..core import Discard, Stats, hyp_search, subseed
+from ..core import Discard, Stats, hyp_search, open_finding_ids, subseed
 
 PID = "C08"
 TARGETS = ("riscv", "riscv:rvc", "riscv:rvf", "x86_64", "arm", "arm:thumb")
@@ -28,7 +28,7 @@ ASSUMPTIONS = [
     "operand sizes of x86 memory operands are not compared (ppci does not print them)",
 ]
 TRUSTED = ["CPython", "Hypothesis", "llvm-mc 14", "GNU objdump", "normalisers in vf/llvmref.py", "vf/isagen.py"]
-REGISTER = False
+REGISTER = True
 TECHNIQUE = "generated instruction instances decoded by llvm-mc / objdump and compared through per-ISA normalisers"
 LEVEL_TEXT = (
     "Exploration: every class of the covered ISAs is instantiated with all registers and boundary/random "
@@ -299,9 +299,11 @@ def explain(desc, text, data, diff):
         if _COPIED.get((fam, cid)) == dm and pm == {"asr": "lsr"}.get(dm):
             return KF_MNEMONIC
         if target == "riscv:rvc":
-            x0 = "x0" in [a[1] for a in desc["args"] if isinstance(a, list) and a and a[0] == "r"]
-            if x0 and (pm, dm) in (("c.mv", "c.jr"), ("c.jalr", "c.ebreak"), ("c.slli", "c.slli64"), ("c.srli", "c.srli64"), ("c.srai", "c.srai64")):
+            regs = [a[1] for a in desc["args"] if isinstance(a, list) and a and a[0] == "r"]
+            if "x0" in regs and (pm, dm) in (("c.mv", "c.jr"), ("c.jalr", "c.ebreak"), ("c.slli", "c.slli64"), ("c.srli", "c.srli64"), ("c.srai", "c.srai64")):
                 return KF_RVC_X0
+            if regs[:1] == ["x2"] and (pm, dm) == ("c.lui", "c.addi16sp"):
+                return KF_RVC_X0  # C.LUI with rd = x2 is the C.ADDI16SP encoding
             if (pm, dm) == ("c.bneqz", "c.bnez"):
                 return KF_RVC_BNEQZ
             if (pm, dm) in (("c.slli", "c.slli64"), ("c.srli", "c.srli64"), ("c.srai", "c.srai64")):
@@ -335,6 +337,8 @@ def _reg_filter_for(target, cid):
         out = list(ids)
         if target == "x86_64" and rcls.__name__ == "Register8":
             out = [i for i in ids if i not in _X86_HIGH]
+        elif target == "riscv:rvc" and cid in ("CMovr", "CJalr", "CJr", "CLui", "CLwsp", "CSlli", "CLi", "CAddi"):
+            out = [i for i in ids if i != "x0" and not (cid == "CLui" and i == "x2")]  # KF5
         elif target == "riscv:rvc":
             base = G.base_desc(target, cid, ())
             try:
@@ -395,6 +399,7 @@ def _worker(arg):
     target, k, nchunks, seed, per_target = arg
     stats = Stats()
     fails = []
+    open_ids = open_finding_ids(PID)
     allc = [cid for cid, cls in G.instruction_classes(target)]
     cids = allc[k::nchunks]
     n = max(6, min(60 if per_target <= 5000 else 5000, per_target // max(1, len(allc))))
@@ -409,7 +414,7 @@ def _worker(arg):
             continue
 
         kf = class_exclusion(target, cid)
-        if kf:
+        if kf and kf in open_ids:
             stats.excluded[kf] += 1
             continue
 
@@ -435,7 +440,7 @@ def _worker(arg):
                    classes=("%s/%s" % (target, st if st != "unverifiable" else "unverifiable:" + detail),))
         if st == "fail":
             kf = explain(desc, text, data, diff)
-            if kf:
+            if kf and kf in open_ids:
                 stats.known[kf] += 1
             elif per_class[desc["cls"]] < 2:
                 per_class[desc["cls"]] += 1
@@ -444,7 +449,8 @@ def _worker(arg):
 
 
 def run(ctx):
-    per_target = ctx.scale(3000, 200000)
+    per_target = ctx.scale(2000, 200000)
+    G.configure(thorough=not ctx.quick)
     G.preload()
     tasks = []
     for target in TARGETS:
